@@ -69,7 +69,54 @@ MUTATING_METHODS = {"append", "add", "update", "setdefault", "pop", "clear", "ex
 
 
 def _is_self_attr(node):
-    return isinstance(node, ast.Attribute) and isinstance(node.value, ast.Name) and node.value.id == "self"
+    """self.x, self.x.y, ... (an attribute chain rooted at `self`)"""
+    while isinstance(node, ast.Attribute):
+        node = node.value
+        if isinstance(node, ast.Name) and node.id == "self":
+            return True
+    return False
+
+
+def _store_lines(fn_node):
+    """line numbers of the statements of a function that store into state reachable from `self`"""
+    out = set()
+    for sub in ast.walk(fn_node):
+        targets = []
+        if isinstance(sub, ast.Assign):
+            targets = sub.targets
+        elif isinstance(sub, (ast.AugAssign, ast.AnnAssign)):
+            targets = [sub.target]
+        elif isinstance(sub, ast.Delete):
+            targets = sub.targets
+        for t in targets:
+            for el in (t.elts if isinstance(t, ast.Tuple) else [t]):
+                if _is_self_attr(el) or (isinstance(el, ast.Subscript) and _is_self_attr(el.value)):
+                    out.add(sub.lineno)
+        if (isinstance(sub, ast.Call) and isinstance(sub.func, ast.Attribute) and sub.func.attr in MUTATING_METHODS
+                and _is_self_attr(sub.func.value)):
+            out.add(sub.lineno)
+    return out
+
+
+def locate_stores(path, exclude=("__init__", "__post_init__")):
+    """{(function, lineno): "S" | "L"} for every line of every function of the file: "S" = a statement that
+    stores into state reachable from `self` (outside constructors).  With LineScheduler(store_window=True) a
+    thread parks immediately before every "S" line and at the first line it reaches after one, i.e. around every
+    write to an object that may be shared.  Returns (table, [(function, line text)] of the store statements)."""
+    with open(path, encoding="utf-8") as f:
+        src = f.read()
+    lines = src.splitlines()
+    tree = ast.parse(src)
+    table, stores = {}, []
+    for node in ast.walk(tree):
+        if not isinstance(node, (ast.FunctionDef, ast.AsyncFunctionDef)):
+            continue
+        st = set() if node.name in exclude else _store_lines(node)
+        for n in range(node.lineno + 1, node.end_lineno + 1):
+            if (node.name, n) not in table or n in st:
+                table[(node.name, n)] = "S" if n in st else "L"
+        stores += [(node.name, lines[n - 1].strip()) for n in sorted(st)]
+    return table, stores
 
 
 def locate_mutators(path, exclude=("__init__",)):
@@ -107,9 +154,12 @@ def locate_mutators(path, exclude=("__init__",)):
 class LineScheduler:
     """Controller + per-thread tracers.  files: {filename: {(function, lineno): label}}."""
 
-    def __init__(self, files, step_timeout=10.0):
+    def __init__(self, files, step_timeout=10.0, store_window=False, lazy=False):
         self.files = files
+        self.lazy = lazy
         self.step_timeout = step_timeout
+        self.store_window = store_window      # tables hold "S"/"L": park before "S" lines and right after them
+        self.after = {}
         self.cv = threading.Condition()
         self.state = {}       # worker index -> "running" | ("parked", label) | "done"
         self.go = {}          # worker index -> bool (released)
@@ -137,7 +187,16 @@ class LineScheduler:
                 if event == "line":
                     label = table.get((frame.f_code.co_name, frame.f_lineno))
                     if label is not None:
-                        self._park(i, label)
+                        if not self.store_window:
+                            self._park(i, label)
+                        elif label == "S":
+                            self._park(i, frame.f_lineno)
+                            self.after[i] = frame          # park again at the next line of THIS frame: calls made
+                        elif self.after.get(i) is True or self.after.get(i) is frame:   # by the statement run first
+                            self.after[i] = False
+                            self._park(i, -frame.f_lineno)
+                elif event == "return" and self.store_window and self.after.get(i) is frame:
+                    self.after[i] = True                   # the store was the last statement: next line anywhere
                 return loc
             return loc
 
@@ -178,19 +237,33 @@ class LineScheduler:
                     raise SchedulerTimeout(f"a released thread neither parked nor finished: {self.state}")
                 self.cv.wait(min(left, 0.2))
 
+    def _start_one(self, i, fn):
+        with self.cv:
+            self.state[i] = "running"
+            self.go[i] = False
+        t = threading.Thread(target=self._worker, args=(i, fn), daemon=True)
+        self.threads[i] = t
+        t.start()
+        self._wait_quiet()       # one at a time: the start-up of a thread is not interleaved
+
     def start(self, fns):
+        """Eager start (model replay): every worker runs up to its first yield point.  With lazy=True (model-free
+        modes) a worker is only started by its first release, so that a thread can begin its call after another
+        one has already changed shared state."""
+        self.fns = list(fns)
+        if self.lazy:
+            for i in range(len(fns)):
+                self.state[i] = "new"
+            return
         for i, fn in enumerate(fns):
-            with self.cv:
-                self.state[i] = "running"
-                self.go[i] = False
-            t = threading.Thread(target=self._worker, args=(i, fn), daemon=True)
-            self.threads[i] = t
-            t.start()
-            self._wait_quiet()       # one at a time: the start-up of a thread is not interleaved
+            self._start_one(i, fn)
 
     def release(self, i):
         """Let worker i execute one marked line (and everything up to its next one).
         Returns False if it had already finished."""
+        if self.state.get(i) == "new":
+            self._start_one(i, self.fns[i])
+            return True
         with self.cv:
             if self.state.get(i) == "done" or i not in self.state:
                 return False
